@@ -151,7 +151,7 @@ def escape_project(seed, i):
     root = p["files"]["laze-project.yml"][0]
     default = __import__("lazeverif.projcheck", fromlist=["x"]).default_context(p)
     tag = f"LIT{i}"
-    where = rng.choice(["context-env", "module-global", "module-local", "rule-cmd", "task-cmd"])
+    where = rng.choice(["context-env", "module-global", "module-local", "rule-cmd", "task-cmd", "rule-export", "rule-export", "list-middle"])
     apps = [m for k, m, path in __import__("lazeverif.projcheck", fromlist=["x"]).yaml_modules(p) if k == "apps"]
     esc = "\\${" + tag + "}"
     if where == "context-env":
@@ -163,11 +163,20 @@ def escape_project(seed, i):
         for a in apps:
             a.setdefault("env", {}).setdefault("local", {})["ESCV"] = esc
             a.setdefault("sources", []).append("esc_" + a["name"] + ".c")
+    elif where == "list-middle":
+        # an escaped reference that is neither the first nor the last marker of its string, inside a list element
+        default.setdefault("env", {})["ESCV"] = ["${builder} " + esc + " ${app}", "t"]
     # the variable named inside the escape IS defined: a wrong un-escaping would substitute it
     default.setdefault("env", {})[tag] = "SUBSTITUTED"
     for r in default["rules"]:
         if r["name"] in ("LINK", "CC"):
             r["cmd"] = r["cmd"] + " ${ESCV}" + (" " + esc if where == "rule-cmd" else "")
+    if where == "rule-export":
+        # a rule exporting a value with an escaped reference: the value is expanded when the export is applied and must not be
+        # expanded a second time with the command it is glued to
+        for r in default["rules"]:
+            if r["name"] in ("LINK", "CC"):
+                r["export"] = [{"ESCX": "pre " + esc + " post"}] + ([rng.choice(["OPT", "X"])] if rng.random() < 0.5 else [])
     if where == "task-cmd":
         default["tasks"] = {"esc": {"cmd": ["echo " + esc], "build": False}}
     p["_escape"] = {"where": where, "tag": tag}
@@ -191,6 +200,9 @@ def escape_oracle(chk, p, r, m):
     text = r["ninja"] or ""
     if "SUBSTITUTED" in text:
         chk.fail_oracle("escape:" + where, f"escaped reference \\{lit} written in {where} was substituted in a generated command", {"project": p})
+    elif where == "rule-export":
+        if projcheck.built(r) and f'ESCX="pre {lit} post"' not in text:
+            chk.fail_oracle("escape:rule-export:lost", f"a rule exporting ESCX: pre \\{lit} post does not produce the assignment ESCX=\"pre {lit} post\" in its command", {"project": p})
     elif projcheck.built(r) and lit not in text and where != "module-local":
         chk.fail_oracle("escape:" + where + ":lost", f"escaped reference \\{lit} written in {where} does not reach any command as literal {lit}", {"project": p})
 
